@@ -129,6 +129,8 @@ class Tail:
                         raise AnalysisError(f'write to the boundary tensor `{norm(s)[:70]}` is not a scalar multiple of it')
                     scale = scale * f
                     continue
+                if isinstance(t, ast.Subscript) and norm(t.value).endswith('.qD'):
+                    continue        # a bond label is stored: not part of the factor algebra (decided by the pairing rules)
                 raise AnalysisError(f'statement `{norm(s)[:70]}` after the boundary call is not a recognised idiom')
             if isinstance(s, ast.AugAssign) and norm(s.target) == self.boundary and isinstance(s.op, (ast.Mult, ast.Div)):
                 m = self.ev(s.value, env)
